@@ -117,8 +117,8 @@ class ScriptedSerDes(serdes_mod.SerDes):
 
 
 class FakeState:
-    def __init__(self, records, outcomes, trace):
-        self.records, self.outcomes, self.trace = list(records), list(outcomes), trace
+    def __init__(self, records, outcomes, trace, script=None):
+        self.records, self.outcomes, self.trace, self.script = list(records), list(outcomes), trace, script
         self.durable_execution_arn = "arn"
 
     def get_checkpoint_result(self, checkpoint_id):
@@ -140,13 +140,13 @@ class FakeState:
             raise X.BackgroundThreadError("bg", ValueError("src"))
 
     def is_replaying(self):
-        return False
+        return bool(self.script.next("is_replaying").get("value", False))
 
 
 def run_one(sc):
     trace = []
     script = Script(sc["calls"], sc.get("clocks", []), trace)
-    state = FakeState(sc["records"], sc["cp_outcomes"], trace)
+    state = FakeState(sc["records"], sc["cp_outcomes"], trace, script)
     ident = OperationIdentifier(sc["ident"]["operation_id"], sc["ident"]["parent_id"], sc["ident"]["name"])
     ser = ScriptedSerDes(script)
     # clocks
